@@ -2,6 +2,8 @@ package statehist
 
 import (
 	"bytes"
+	"sync/atomic"
+	"time"
 
 	"github.com/NethermindEth/juno/db"
 )
@@ -26,13 +28,29 @@ type getter interface {
 	Get(key []byte, cb func([]byte) error) error
 }
 
+// readStall > 0 (concurrent rounds only): every few reads the calling goroutine pauses right after
+// the read returned, so that a caller which composes its answer from two reads of the live database
+// (check-then-read, seek-then-fallback) leaves a window a concurrent commit can fall into.
+var (
+	readStall atomic.Int32
+	readCount atomic.Uint64
+)
+
+func stall() {
+	if readStall.Load() > 0 && readCount.Add(1)%4 == 0 {
+		time.Sleep(20 * time.Microsecond)
+	}
+}
+
 func poisonGet(r getter, key []byte, cb func([]byte) error) error {
-	return r.Get(key, func(v []byte) error {
+	err := r.Get(key, func(v []byte) error {
 		c := bytes.Clone(v)
 		err := cb(c)
 		scribble(c)
 		return err
 	})
+	stall()
+	return err
 }
 
 func (s *poisonStore) Get(key []byte, cb func([]byte) error) error {
@@ -133,5 +151,5 @@ func (i *poisonIter) UncopiedValue() ([]byte, error) {
 func (i *poisonIter) First() bool        { i.expire(); return i.Iterator.First() }
 func (i *poisonIter) Next() bool         { i.expire(); return i.Iterator.Next() }
 func (i *poisonIter) Prev() bool         { i.expire(); return i.Iterator.Prev() }
-func (i *poisonIter) Seek(k []byte) bool { i.expire(); return i.Iterator.Seek(k) }
+func (i *poisonIter) Seek(k []byte) bool { i.expire(); ok := i.Iterator.Seek(k); stall(); return ok }
 func (i *poisonIter) Close() error       { i.expire(); return i.Iterator.Close() }
